@@ -330,6 +330,11 @@ def py_round(ex, st, x, k, node):
 def add_round_facts(st, xt, kt, r):
     h = vals.hulp(kt)
     st.assume(z3.And(h > 0, r - xt <= h, xt - r <= h, vals.rnd(r, kt) == r))
+    # rounding to k >= 0 decimals fixes the integers 0 and 100 and is monotone: sign and the
+    # [0, 100] range are preserved
+    st.assume(z3.Implies(kt >= 0, z3.And(z3.Implies(xt >= 0, r >= 0), z3.Implies(xt <= 0, r <= 0),
+                                          z3.Implies(xt <= 100, r <= 100), z3.Implies(xt >= 100, r >= 100),
+                                          z3.Implies(xt >= -100, r >= -100), z3.Implies(xt <= -100, r <= -100))))
     # monotone w.r.t. earlier applications with the same k; integers are fixed points
     prev = st.ghost.setdefault("rnd", RndLog())
     for (x2, k2, r2) in prev.items:
